@@ -363,6 +363,8 @@ impl ThreadPool {
     /// The `new` function will panic if the initial_worker is zero.
     pub fn new(initial_worker: usize, max_workers: usize) -> ThreadPool {
         assert!(initial_worker > 0);
+        // never start with more workers than may serve connections at the same time
+        let initial_worker = initial_worker.min(max_workers.max(1));
 
         let (sender, receiver) = mpsc::channel();
 
